@@ -135,6 +135,9 @@ pub enum Op {
     PRenderPng,
     /// a call of the public (doc-hidden) `datamasking::mask` on a blank matrix of the given version's width
     ForeignMask(usize, u8),
+    /// the shared builder is built this many times in a row (counts around 2^8 / 2^10; short inputs only), and the
+    /// long-lived SvgBuilder renders the result as often: every result equals the first and a fresh object's
+    Repeat(u16),
 }
 
 #[derive(Clone, Debug)]
@@ -158,6 +161,7 @@ fn op_json(op: &Op) -> Value {
         Op::PRenderSvg => json!("p_render_svg"),
         Op::PRenderPng => json!("p_render_png"),
         Op::ForeignMask(v, k) => json!({"foreign_mask": [v, k]}),
+        Op::Repeat(n) => json!({"repeat": n}),
     }
 }
 
@@ -173,6 +177,9 @@ fn op_from(v: &Value) -> Option<Op> {
     }
     if v.as_str() == Some("p_render_png") {
         return Some(Op::PRenderPng);
+    }
+    if let Some(n) = v.get("repeat").and_then(|x| x.as_u64()) {
+        return Some(Op::Repeat(n as u16));
     }
     if let Some(a) = v.get("foreign_mask").and_then(|x| x.as_array()) {
         return Some(Op::ForeignMask(a.first()?.as_u64()? as usize, a.get(1)?.as_u64()? as u8));
@@ -665,6 +672,32 @@ pub fn check_history(h: &History, obs: &mut Obs) -> Result<(), Fail> {
                     }
                     obs.label("render:svg");
                 }
+            }
+            Op::Repeat(n) => {
+                let n = if h.input.len() > 120 { (*n).min(260) } else { *n };
+                let first = snap_build(&shared);
+                let mut first_svg: Option<u64> = None;
+                for k in 1..n {
+                    let again = snap_build(&shared);
+                    if again != first {
+                        return fail("history_dependent:repeated_build", format!("op {}: build number {} in a row on the same builder gives {:?}, the first gave {:?} (history {})", i, k + 1, again, first, hist_json(h)));
+                    }
+                    if k % 64 == 1 {
+                        if let Ok(Some(q)) = catch(|| shared.build().ok()) {
+                            let hsh = hash_bytes(pc("SvgBuilder::to_str", || psvg.to_str(&q))?.as_bytes());
+                            match first_svg {
+                                None => first_svg = Some(hsh),
+                                Some(f) if f != hsh => return fail("render_history_dependent:repeated_render", format!("op {}: the long-lived SvgBuilder renders the same symbol differently after {} builds (history {})", i, k, hist_json(h))),
+                                _ => {}
+                            }
+                        }
+                    }
+                }
+                let fresh = snap_build(&fresh_build(&h.input, &model));
+                if fresh != first {
+                    return fail("history_dependent", format!("op {}: after this history the builder gives {:?}, a fresh builder with the final options {:?} gives {:?} (history {})", i, first, model, fresh, hist_json(h)));
+                }
+                obs.label("repeat:builds_in_a_row");
             }
             Op::ForeignMask(v, k) => {
                 let _ = catch(|| {
@@ -1216,6 +1249,7 @@ pub fn history_strategy() -> BoxedStrategy<History> {
                     2 => vec(svg_op(), 0..8).prop_map(Op::RenderSvg),
                     1 => vec(png_op(), 0..5).prop_map(Op::RenderPng),
                     1 => (prop_oneof![3 => 1usize..=10, 1 => 1usize..=40], 0u8..8).prop_map(|(v, k)| Op::ForeignMask(v, k)),
+                    1 => prop_oneof![(0u16..4).prop_map(|d| 254 + d), (0u16..4).prop_map(|d| 1022 + d), Just(300u16), 2u16..40].prop_map(Op::Repeat),
                     3 => p_op().prop_map(Op::PSet),
                     3 => Just(Op::PRenderSvg),
                     1 => Just(Op::PRenderPng),
